@@ -47,6 +47,7 @@ func js(parts ...interface{}) string {
 }
 
 func runC18(w *W) {
+	perturbCache = true
 	// nayin law on the table: pairs 2k, 2k+1 share a nayin; each name covers exactly two consecutive pairs... (one element per name)
 	for k := 0; k < 30; k++ {
 		a, b := LunarUtil.NAYIN[gz(2*k)], LunarUtil.NAYIN[gz(2*k+1)]
@@ -73,7 +74,7 @@ func runC18(w *W) {
 			if k > 0 {
 				h = 2*k - 1
 			}
-			l := d.At(h, 0, 0).GetLunar()
+			l := lunarP(d.At(h, 0, 0), d.J)
 			wit := fmt.Sprintf("%s %02d:00", d.Ymd, h)
 			w.R.Evals++
 			dg, dz := l.GetDayGanIndex(), l.GetDayZhiIndex()
